@@ -4,6 +4,7 @@ package main
 //
 //	C13 xmd <msg> <dst> <len>                                   hash.ExpandMsgXmd
 //	C13 h2f <field> <msg> <dst> <count>                         <field>.Hash (all 23 packages), regular values
+//	C13 h2fhist <field> <dst>[/mut] <tok…> [| <tok…>]…           call histories on hash_to_field.New(dst) (c13_hist.go)
 //	C13 map  <curve> <g1|g2> <tower> <p> <a> <b> <r> <u> <P>     MapToG<i>(u): P was computed at generation time; the executor
 //	                                                            recomputes it (determinism), asks the library predicates and
 //	                                                            checks the RFC sign convention on MapToCurve<i>(u)
@@ -380,6 +381,10 @@ func c13Exec(a []string) string {
 		return "bad-op"
 	}
 	switch a[0] {
+	case "h2fhist":
+		return c13ExecHist(a[1:])
+	case "h2fcover":
+		return "missing-adapter"
 	case "xmd", "rfcx":
 		if len(a) < 4 {
 			return "bad-op"
@@ -563,6 +568,8 @@ func c13Gen(g *gen) {
 			g.emit("C13 h2f %s %s %s %x", f, hexBytes(g.rng.bytes(g.rng.intn(150))), hexBytes(g.rng.bytes(g.rng.intn(256))), g.rng.intn(7))
 		}
 	}
+	// (a3) call histories on the hash.Hash wrappers of the 16 hash_to_field packages (c13_hist.go)
+	c13GenHist(g)
 	// (b) maps, encodings and hashes of every group
 	for _, key := range c13GroupOrder {
 		gr := c13Groups[key]
